@@ -1,5 +1,5 @@
 (* Wire glue for C11 (ops 11xx): universal value -> ANSI model/spec functions. *)
-From Fzf Require Import Prelude Val AnsiSpec AnsiModel.
+From Fzf Require Import Prelude Val AnsiSpec AnsiModel AnsiNthSpec AnsiNthModel.
 Open Scope Z_scope.
 
 Definition v_span (r : res (option (nat * nat))) : val :=
@@ -26,12 +26,13 @@ Definition as_state_opt (v : val) : option astate :=
 
 Definition v_off (o : aoff) : val := VL [vnat (o_b o); vnat (o_e o); v_state (o_col o)].
 
-Definition d_extract (s : str) (st : option astate) : val :=
-  match extract_color s st with
+Definition v_extract (r : res (str * option (list aoff) * option astate)) : val :=
+  match r with
   | Ok (t, offs, st') =>
       VL [vstr t; match offs with None => VL [] | Some l => VL [VL (map v_off l)] end; v_state_opt st']
   | Err _ => verr
   end.
+Definition d_extract (s : str) (st : option astate) : val := v_extract (extract_color s st).
 
 Definition d_interpret (code : str) (st : option astate) : val :=
   match interpret_code code st with
@@ -74,4 +75,16 @@ Definition dispatch_ansi (op : Z) (a : val) : option val :=
   else if op =? 1108 then Some (vnat (kept_runes (as_str a)))
   else if op =? 1109 then Some (VL (map v_sgr (term_chars (map as_item (as_list (arg a 0))) (as_sgr (arg a 1)))))
   else if op =? 1110 then Some (VL [v_sgr (sgr_xapply (as_xsgr (arg a 0)) (as_sgr (arg a 1))); vbool (sgr_xwf (as_xsgr (arg a 0)))])
+  (* fields of a line / lines of a stream shown out of context (--with-nth):
+     1111 spec: [pieces (lists of items); state; selected piece numbers] -> colour of every character shown
+     1112 model of the core.go loop: [tokens; selected token numbers; loop start state; line state] -> text, spans, state
+     1113 model of ansiState.ToString   1114 spec: parameters that re-create a state, and whether it is in the domain *)
+  else if op =? 1111 then
+    Some (VL (map v_sgr (shown_chars (map as_nat (as_list (arg a 2)))
+                                     (map (fun p => map as_item (as_list p)) (as_list (arg a 0))) (as_sgr (arg a 1)))))
+  else if op =? 1112 then
+    Some (v_extract (nth_display (as_strs (arg a 0)) (map as_nat (as_list (arg a 1)))
+                                 (as_state_opt (arg a 2)) (as_state_opt (arg a 3))))
+  else if op =? 1113 then Some (vstr (state_to_string (as_state a)))
+  else if op =? 1114 then Some (VL [vstr (restore_params (as_sgr a)); vbool (sgr_ok (as_sgr a))])
   else None.
